@@ -854,6 +854,13 @@ func (s *session) exec(args []string) string {
 		}
 		s.exporters[args[1]] = ex
 		return "ok"
+	case "dclose": // close one exporter twice (explicit Close plus a deferred one)
+		if e, ok := s.exporters[args[1]]; ok {
+			e.Close()
+			e.Close()
+			delete(s.exporters, args[1])
+		}
+		return "ok"
 	case "release":
 		if e, ok := s.exporters[args[1]]; ok {
 			e.Close()
